@@ -5,7 +5,8 @@ import networkx as nx
 
 from common import Atom, Case, Run, call_impl, prepare, enc_graph, sx
 
-PROOFS = ["FGVerif.Proofs.C13", "FGVerif.Proofs.C13Any"]
+PROOFS = ["FGVerif.Proofs.C13", "FGVerif.Proofs.C13Any", "FGVerif.Proofs.C13Offset", "FGVerif.Proofs.C13IdsA",
+          "FGVerif.Proofs.C13Ids"]
 
 ATOMS = ["C", "N", "O", "c", "S", "Cl", "n"]
 SUBS = ["", "C", "NO", "C(=O)O", "c1ccccc1", "C<2,1>C", "S{q}", "C1CC1", "N(C)(C)C", "C=1CC=1", "C.O",
@@ -113,27 +114,84 @@ def shuffled(g, rng):
 
 
 def oracle_in_domain(g, x, hn, anchors):
-    ids = list(g.nodes)
-    return (sorted(ids) == list(range(len(ids))) and x in g and not g.has_edge(x, x)
+    """the property's domain (`C13.inDomainIds`): ANY node ids (networkx keeps them distinct), the node present
+    without a self-loop, anchors inside the sub-pattern"""
+    return (x in g and not g.has_edge(x, x)
             and (hn == 0 or (len(anchors) >= 1 and all(0 <= a < hn for a in anchors))))
+
+
+def oracle_contiguous(g):
+    """ids are 0..n-1 in some node order (`C13.inDomainAny`, the domain of the theorems about `Spec`)"""
+    ids = list(g.nodes)
+    return sorted(ids) == list(range(len(ids)))
+
+
+def next_id(g):
+    """`max(graph.nodes, default=-1) + 1`: the repaired `idx_offset` (the model's `nextId`)"""
+    return max(g.nodes, default=-1) + 1
+
+
+def id_shape(g):
+    ids = list(g.nodes)
+    n = len(ids)
+    if ids == list(range(n)):
+        return "ids=0..n-1_ordered"
+    if sorted(ids) == list(range(n)):
+        return "ids=0..n-1_shuffled"
+    inc = all(a < b for a, b in zip(ids, ids[1:]))
+    if n and sorted(ids) == list(range(min(ids), min(ids) + n)):
+        kind = "offset"
+    else:
+        kind = "sparse"
+    return "ids=%s%s%s" % (kind, "" if inc else "_shuffled", "_negative" if n and min(ids) < 0 else "")
+
+
+def renamed(g, mapping):
+    """same graph under an injective renaming of the ids, node order, adjacency order and keys kept"""
+    h = g.__class__()
+    for n in g.nodes:
+        h.add_node(mapping[n], **g.nodes[n])
+    for n in g.nodes:
+        for v, dd in g.adj[n].items():
+            if g.is_multigraph():
+                for k, d in dd.items():
+                    h.add_edge(mapping[n], mapping[v], key=k, **d)
+            else:
+                h.add_edge(mapping[n], mapping[v], **dd)
+    return h
+
+
+def sparse_ids(g, rng, negative=False):
+    """strictly increasing renaming with random gaps (optionally starting below zero)"""
+    cur = -rng.randint(1, 2 * g.number_of_nodes() + 3) if negative else rng.randint(0, 4)
+    mapping = {}
+    for n in sorted(g.nodes):
+        mapping[n] = cur
+        cur += 1 + (rng.randint(0, 5) if rng.random() < 0.6 else 0)
+    return renamed(g, mapping)
 
 
 def make_case(r, g, x, sub, anchors, multi, meta, tags, contract_cache):
     from fgutils.parse import Parser
     n = g.number_of_nodes()
-    key = (sub, multi, n)
+    off = next_id(g)
+    key = (sub, multi, off)
     if key not in contract_cache:
-        contract_cache[key] = parse_contract_ok(sub, multi, n)
+        contract_cache[key] = parse_contract_ok(sub, multi, off)
         if not contract_cache[key]:
-            r.notes.setdefault("parse_offset_contract_failures", []).append([sub, multi, n])
+            r.notes.setdefault("parse_offset_contract_failures", []).append([sub, multi, off])
     h0 = Parser(use_multigraph=multi).parse(sub)
     hn = h0.number_of_nodes()
     in_dom = oracle_in_domain(g, x, hn, anchors)
     req = [Atom("C13"), Atom("replace"), enc_graph(g), x, enc_graph(h0), list(anchors)]
-    out = call_impl(impl_replace, g, x, sub, anchors, multi)
+    # everything the harness says about the input is computed BEFORE the call (a mutated implementation may change `g`)
     deg = sum(1 for _ in g.edges(x)) if x in g else 0
     early = x in g and any(list(g.nodes).index(u) < list(g.nodes).index(x) for u in g.adj[x])
     late = x in g and any(list(g.nodes).index(u) > list(g.nodes).index(x) for u in g.adj[x])
+    shape = id_shape(g)
+    meta = dict(meta, node=x, sub=sub, anchors=list(anchors), multi=multi, ordered=list(g.nodes) == list(range(n)),
+                contiguous=oracle_contiguous(g), next_id=off)
+    out = call_impl(impl_replace, g, x, sub, anchors, multi)
     tags = tuple(tags) + (
         "multi" if multi else "simple",
         "sub_empty" if hn == 0 else "sub_nonempty",
@@ -141,9 +199,9 @@ def make_case(r, g, x, sub, anchors, multi, meta, tags, contract_cache):
         "anchors=%d" % len(anchors),
         "earlier+later_nbrs" if early and late else "one_sided_nbrs",
         "n>=7" if n >= 7 else "n<7",
+        shape,
         "in_domain" if in_dom else "out_of_domain")
     ntk = (sx(req[2]), x, sub, tuple(anchors)) if in_dom and deg >= 1 else None
-    meta = dict(meta, node=x, sub=sub, anchors=list(anchors), multi=multi, ordered=list(g.nodes) == list(range(n)))
     return Case(req, out, in_domain=in_dom, meta=meta, nontrivial_key=ntk, tags=tags)
 
 
@@ -257,6 +315,21 @@ def run(tier, seed):
     for s, x, sub, anchors, multi in corpus:
         g = Parser(use_multigraph=multi).parse(s)
         cases.append(make_case(r, g, x, sub, anchors, multi, {"parent": s}, ("corpus",), cc))
+    # parents whose ids are not 0..n-1 (review round 1): `idx_offset = len(graph.nodes)` was an id in use there
+    corpus_offset = [
+        ("{g}CC", 2, 2, "N", [0], True),                  # replace_next_node(parse("{g}CC", idx_offset=2), {g: [N, O, S]})
+        ("{g}CC", 2, 2, "O", [0], True),
+        ("{g}CC", 2, 2, "S", [0], True),
+        ("C{g}C", 2, 3, "N", [0], True),                  # lost a carbon
+        ("C{g}C", 2, 3, "NO", [0, 1], False),
+        ("C1C{g}(C)1", 5, 7, "NO", [0, 1], True),
+        ("C{g}C", 1, 2, "", [0], True),                   # empty pattern on offset ids
+    ]
+    for s, k, x, sub, anchors, multi in corpus_offset:
+        g = Parser(use_multigraph=multi).parse(s, idx_offset=k)
+        cases.append(make_case(r, g, x, sub, anchors, multi, {"parent": s, "idx_offset": k}, ("corpus", "corpus=offset_ids"), cc))
+    g = renamed(Parser(use_multigraph=True).parse("C1C{g}(C)1"), {0: 7, 1: -3, 2: 2, 3: 40})
+    cases.append(make_case(r, g, 2, "NO", [0, 1], True, {"parent": "C1C{g}(C)1 on ids 7,-3,2,40"}, ("corpus", "corpus=sparse_negative_ids"), cc))
     stats = {"dom_mismatch": 0, "inc_bad": 0, "exact_bad": 0}
 
     def process(batch):
@@ -272,12 +345,21 @@ def run(tier, seed):
                     stats["exact_bad"] += 1
                 if (o.extra[0] == "1") != (o.case.in_domain and o.case.meta.get("ordered", False)):
                     stats["dom_mismatch"] += 1
-                # the full domain of the theorems (`inDomainAny`: ids 0..n-1 in any node order) = the oracle's domain
-                if len(o.extra) >= 4:
-                    if (o.extra[3] == "1") != bool(o.case.in_domain):
+                # `inDomainAny` (ids 0..n-1 in any node order: the theorems about `Spec`) and `inDomainIds` (any ids: the
+                # theorems about `SpecIds`, the property's domain) must be what the oracle says
+                if len(o.extra) >= 6:
+                    if (o.extra[3] == "1") != (bool(o.case.in_domain) and o.case.meta.get("contiguous", False)):
+                        stats["dom_mismatch"] += 1
+                    if (o.extra[4] == "1") != bool(o.case.in_domain):
+                        stats["dom_mismatch"] += 1
+                    if "next_id" in o.case.meta and str(o.extra[5]) != str(o.case.meta["next_id"]):
                         stats["dom_mismatch"] += 1
                     if o.case.in_domain:
-                        r.count("theorem_domain:ordered(inDomain)" if o.extra[0] == "1" else "theorem_domain:shuffled_order(inDomainAny)")
+                        r.count("theorem_domain:ordered(inDomain)" if o.extra[0] == "1"
+                                else "theorem_domain:shuffled_order(inDomainAny)" if o.extra[3] == "1"
+                                else "theorem_domain:arbitrary_ids(inDomainIds)")
+                else:
+                    stats["dom_mismatch"] += 1
 
     for k in range(n_cases):
         if len(cases) >= 2000:
@@ -298,12 +380,31 @@ def run(tier, seed):
                 tags.append("parent=substituted")
             except Exception:
                 tags.append("parent=parsed")
-        elif style < 0.35:
+        elif style < 0.33:
             g = shuffled(g, rng)
             tags.append("parent=shuffled_order")
-        elif style < 0.40:
-            g = Parser(use_multigraph=multi).parse(s, idx_offset=rng.randint(1, 3))
+        elif style < 0.45:
+            k0 = rng.randint(1, 7)
+            g = Parser(use_multigraph=multi).parse(s, idx_offset=k0)
+            meta["idx_offset"] = k0
             tags.append("parent=offset_ids")
+        elif style < 0.53:
+            g = sparse_ids(g, rng)
+            tags.append("parent=sparse_ids")
+        elif style < 0.59:
+            g = shuffled(sparse_ids(g, rng, negative=rng.random() < 0.5), rng)
+            tags.append("parent=sparse_ids_shuffled_order")
+        elif style < 0.66:
+            if rng.random() < 0.5:
+                g = sparse_ids(g, rng, negative=True)
+            else:
+                sh = rng.randint(1, g.number_of_nodes() + 4)       # a block of consecutive ids that starts below zero
+                g = renamed(g, {u: u - sh for u in g.nodes})
+            tags.append("parent=negative_ids")
+        elif style < 0.72 and g.number_of_nodes() >= 3:
+            drop = rng.sample(list(g.nodes), rng.randint(1, max(1, g.number_of_nodes() // 3)))
+            g = g.subgraph([u for u in g.nodes if u not in drop]).copy()
+            tags.append("parent=subgraph_of_parsed")
         else:
             tags.append("parent=parsed")
         nodes = list(g.nodes)
@@ -356,9 +457,12 @@ def run(tier, seed):
     return r.finish(
         level="proof",
         rule="parents from the real parser on random SMILES-like strings (2-16 nodes, rings, branches, parallel bonds, ITS labels; "
-             "simple and multigraph), 25% results of an earlier substitution, 10% shuffled node order, 5% offset ids (out of domain); "
+             "simple and multigraph), 25% results of an earlier substitution, 8% shuffled node order, and ARBITRARY ids (in domain): "
+             "12% offset ids (parse with idx_offset 1..7), 8% sparse increasing ids, 6% sparse ids in shuffled node order (half negative), "
+             "7% negative sparse ids, 6% sub-graphs of parsed graphs; "
              "replaced node = label node (70%) or any node; sub-patterns from a fixed list and random (0-7 nodes, nested labels, ITS), "
              "1-4 anchors, overflow; non-trivial = in-domain with at least one incident bond, distinct by (parent, node, sub, anchors)",
-        checker_cmd="cd lean && lake build FGVerif.Proofs.C13 && lake env lean FGVerif/Audit/C13.lean",
+        checker_cmd="cd lean && lake build FGVerif.Proofs.C13 FGVerif.Proofs.C13Any FGVerif.Proofs.C13Ids && lake env lean FGVerif/Audit/C13.lean",
         explanation="theorems in lean/FGVerif/Proofs/C13*.lean about Model/C13.lean; model tied to fgutils.proxy.replace_node/relabel_graph by "
-                    "exact differential testing; executable spec C13.specCheck applied to every implementation output")
+                    "exact differential testing; executable spec C13.specCheckIds (arbitrary ids; and C13.specCheck where the ids are "
+                    "0..n-1) applied to every implementation output")
